@@ -705,6 +705,25 @@ class VAMTransmissionManagement:
                 self.send_next_vam(vam=vam_to_send)
                 return
 
+    @staticmethod
+    def _cluster_information_for_coder(cluster_info: dict) -> dict:
+        """
+        Bring the cluster information container into the shapes the VAM coder requires:
+        ``clusterBoundingBoxShape`` is a CHOICE, i.e. an ``(alternative, value)`` tuple, and
+        ``clusterProfiles`` is a BIT STRING (SIZE(4)), i.e. a ``(bytes, number_of_bits)`` tuple.
+        """
+        information = dict(cluster_info.get("vruClusterInformation", {}))
+        shape = information.get("clusterBoundingBoxShape")
+        if isinstance(shape, dict) and len(shape) == 1:
+            (alternative, value), = shape.items()
+            information["clusterBoundingBoxShape"] = (alternative, value)
+        profiles = information.get("clusterProfiles")
+        if isinstance(profiles, (bytes, bytearray)):
+            information["clusterProfiles"] = (bytes(profiles), 4)
+        converted = dict(cluster_info)
+        converted["vruClusterInformation"] = information
+        return converted
+
     def _attach_lf_container_if_due(self, vam: VAMMessage) -> None:
         """Attach ``vruLowFrequencyContainer`` to *vam* when required.
 
@@ -763,7 +782,8 @@ class VAMTransmissionManagement:
         if self.clustering_manager is not None:
             cluster_info = self.clustering_manager.get_cluster_information_container()
             if cluster_info is not None:
-                params["vruClusterInformationContainer"] = cluster_info
+                params["vruClusterInformationContainer"] = self._cluster_information_for_coder(
+                    cluster_info)
             cluster_op = self.clustering_manager.get_cluster_operation_container()
             if cluster_op is not None:
                 params["vruClusterOperationContainer"] = cluster_op
